@@ -40,7 +40,7 @@ func init() {
 	}
 	registerOp("suci", func(a []string) string {
 		m := stgutg.EncodeSuci(aHex(a[0]), int(aI64(a[1])))
-		return "ok " + hx(m.Buffer) + " " + u(uint64(m.Len))
+		return okKeep(m.Buffer) + " " + u(uint64(m.Len))
 	})
 	registerOp("nassuci", func(a []string) string {
 		id := stgutg.EncodeSuci(aHex(a[0]), int(aI64(a[1])))
